@@ -843,6 +843,47 @@ func TestC01(t *testing.T) {
 		}
 	}
 	e3.done(thorough())
+	// read-size boundaries: the reader pulls its input in 4096-byte blocks. A first record of chosen size pushes a
+	// second, syntactically rich record (doubled quotes, multi-line quoted and literal values, wrapped join, every
+	// header field) so that each of its bytes in turn is the first / last byte of a block.
+	{
+		eb := enumPart(t, c01Prop, st, "read-boundary-sweep")
+		rich := gbRec{Locus: "RICH", Mol: "DNA", Circ: true, Div: "SYN", Date: [3]int{2020, 2, 29}, Def: "a rich record: with \"quotes\", slashes / and = signs", Acc: "RICH1", Ver: "RICH1.1",
+			DBLink:   [][2]string{{"BioProject", "PRJNA1: x, y: z"}, {"KEGG BRITE", " lead"}},
+			Keywords: []string{"k one", "k;two", "three"}, Species: "synthetic construct", Organism: "synthetic construct", Taxon: []string{"other sequences", "artificial sequences"},
+			Refs:     []gbRef{{Num: 1, Info: "(bases 1 to 130)", Authors: "A,B. and C,D.", Title: "a title that is long enough to be\nwrapped over two lines", Journal: "J. Test 1 (2), 3-4 (2020)"}, {Num: 2, Info: "(sites)", Title: "t"}},
+			Comments: []string{"first comment\nsecond line of it", "another"}, Extra: [][2]string{{"PROJECT", "GenomeProject:12345"}},
+			Feats: []Feat{
+				{Key: "source", Loc: lrg(0, 130), Quals: [][]string{{"organism", "synthetic construct"}, {"mol_type", "other DNA"}}},
+				{Key: "CDS", Loc: lco(ljn(lprg(2, 20, true, false), lrg(30, 45), lrg(50, 62), lrg(70, 88), lrg(90, 101), lprg(110, 126, false, true))), Quals: [][]string{{"gene", "g"}, {"note", "the so-called \"product\" of \"\"g\"\""}, {"codon_start", "1"}, {"transl_except", "(pos:1..3,aa:Met)"}, {"pseudo", ""}, {"translation", "MKLVINGKTLKGEITVEAPDAATAIKDALHAAGYDLSVEEIRIVHKEGLLTGAIQSFS\nPPRLPSGHADAEVNYGKGLYRKLFP"}, {"xq_one", "unknown \"name\" value"}}},
+				{Key: "misc_feature", Loc: lor(lpt(5), lbt(9), lam(12, 15)), Quals: [][]string{{"note", "\"", "x\"\"y"}}},
+			}, ResLen: 130, ResSeed: 7}
+		tail := gbRec{Locus: "TAIL", Mol: "DNA", Div: "SYN", Date: [3]int{2020, 1, 1}, Def: "tail", ResLen: 61, ResSeed: 1, Feats: []Feat{{Key: "gene", Loc: lrg(0, 9), Quals: [][]string{{"gene", "\"t\""}}}}}
+		first := func(n, pad int) gbRec {
+			return gbRec{Locus: "FIRST", Mol: "DNA", Div: "SYN", Date: [3]int{2020, 1, 1}, Def: "d" + strings.Repeat("x", pad), Acc: "F", Ver: "F.1", ResLen: n, ResSeed: n}
+		}
+		// the size of the first record as a function of its residue count; a pad of p characters in its one-line
+		// definition adds exactly p bytes, which bridges the jumps at group and line ends
+		seen := map[int]bool{}
+		for n := 0; n <= 3700 && len(seen) < 4096; n++ {
+			text, v := writeGenBank([]gts.Sequence{first(n, 0).build()})
+			if v != nil {
+				t.Fatalf("harness: cannot write the first record: %v", v)
+			}
+			for pad := 0; pad <= 12; pad++ {
+				if r := (len(text) + pad) % 4096; !seen[r] {
+					seen[r] = true
+					if thorough() || r%2 == 0 || r >= 4096-8 || r < 8 {
+						if !eb.try(c01Case{Mode: "stream", Recs: []gbRec{first(n, pad), rich, tail}}) {
+							return
+						}
+					}
+				}
+			}
+		}
+		eb.done(thorough())
+		st.note("read-boundary-sweep: %d of 4096 alignments of the second record covered", len(seen))
+	}
 	// every qualifier name of the three INSDC classes (and unknown names), with an empty, a plain, a two-line and a
 	// three-line value, alone and next to a second qualifier of another class
 	e5 := enumPart(t, c01Prop, st, "qualifier-names")
@@ -923,6 +964,15 @@ func c01Fuzz(in []byte) *Violation {
 	seqs := make([]gts.Sequence, len(recs))
 	for i, r := range recs {
 		seqs[i] = r
+		// a malformed standard field (e.g. DEFINITION without its indent) is kept by the reader as an "extra" field of
+		// that name; extra fields are by definition fields other than the standard ones, so such a record is outside
+		// the writable domain the statement quantifies over
+		for _, x := range r.Fields.Extra {
+			if c01StandardFields[strings.TrimSpace(x.Name)] {
+				skipCase("extra-field-named-like-a-standard-field")
+				return nil
+			}
+		}
 	}
 	s1, v := writeGenBank(seqs)
 	if v != nil {
@@ -964,6 +1014,10 @@ func c01Fuzz(in []byte) *Violation {
 	}
 	return nil
 }
+
+var c01StandardFields = map[string]bool{"LOCUS": true, "DEFINITION": true, "ACCESSION": true, "VERSION": true, "DBLINK": true, "KEYWORDS": true,
+	"SOURCE": true, "ORGANISM": true, "REFERENCE": true, "AUTHORS": true, "CONSRTM": true, "TITLE": true, "JOURNAL": true, "PUBMED": true,
+	"REMARK": true, "COMMENT": true, "FEATURES": true, "ORIGIN": true, "CONTIG": true}
 
 // FuzzC01 (thorough): native coverage-guided fuzzing over mutated valid records.
 func FuzzC01(f *testing.F) {
